@@ -58,7 +58,12 @@ class _Worker(object):
             modname.split('.')[-1], flavour, slot))
         extra = san_options(flavour, self.logbase + '.san')
         extra['VERIF_SANLOG'] = self.logbase + '.san'
-        extra['OMP_NUM_THREADS'] = os.environ.get('VERIF_OMP', '2')
+        # many single-purpose workers share the cores: never let libgomp
+        # busy-wait (16 workers x spinning barriers turned a 15 s chunk into
+        # 20 minutes)
+        extra['OMP_NUM_THREADS'] = os.environ.get('VERIF_OMP', '1')
+        extra['OMP_WAIT_POLICY'] = 'passive'
+        extra['GOMP_SPINCOUNT'] = '0'
         if extra_env:
             extra.update(extra_env)
         env = vbuild.full_env(info, extra)
